@@ -13,6 +13,13 @@ Proof. unfold text_eqb. induction s as [|c s IH]; simpl; [reflexivity|]. now rew
 Lemma text_eqb_neq a b : a <> b -> text_eqb a b = false.
 Proof. intros H. destruct (text_eqb a b) eqn:E; [|reflexivity]. apply text_eqb_eq in E. contradiction. Qed.
 
+Lemma text_eqb_sym a b : text_eqb a b = text_eqb b a.
+Proof.
+  destruct (text_eqb a b) eqn:E1; destruct (text_eqb b a) eqn:E2; try reflexivity.
+  - apply text_eqb_eq in E1. subst. rewrite text_eqb_refl in E2. discriminate.
+  - apply text_eqb_eq in E2. subst. rewrite text_eqb_refl in E1. discriminate.
+Qed.
+
 Lemma mem_In x l : mem x l = true <-> In x l.
 Proof.
   unfold mem. rewrite existsb_exists. split.
@@ -161,3 +168,614 @@ Proof.
       apply text_eqb_eq in H2. apply vld_eqb_eq in H1. apply dflt_eqb_eq in H0. unfold cf_ty in Hx; simpl in Hx.
       apply Hx in H3. subst. f_equal. now apply IHl.
 Qed.
+
+(* ================================================================ Part 2: the generic round trip *)
+Lemma ser_none ft : ser ft VNone = Ok JNull.
+Proof. destruct ft; reflexivity. Qed.
+
+Definition dumpf (v : value) (f : sfield) : result (text * option json) :=
+  res_map (fun oj => (sf_key f, oj)) (dump_attr (sf_opts f) (ser (sf_ft f)) (get_attr v (sf_attr f))).
+Definition loadf (kvs : list (text * json)) (f : sfield) : result (text * option value) :=
+  res_map (fun ov => (sf_attr f, ov)) (wrap_field (sf_opts f) (deser (sf_ft f)) (assoc (sf_key f) kvs)).
+
+Lemma ser_nested n h fs v : v <> VNone ->
+  ser (FNested n h fs) v = (do kvs <- sequence (map (dumpf v) fs) ;; post_dump h (somes kvs)).
+Proof.
+  intros Hv.
+  assert (E : forall w, map (fun f : text * ftype * fopts =>
+                 match f with
+                 | (a, ft', o) => res_map (fun oj => (key_of a o, oj)) (dump_attr o (ser ft') (get_attr w a))
+                 end) fs = map (dumpf w) fs).
+  { intros w. apply map_ext. intros [[a ft'] o]. reflexivity. }
+  rewrite <- E. destruct v; try contradiction; reflexivity.
+Qed.
+
+Lemma deser_nested n h fs j :
+  deser (FNested n h fs) j =
+  match pre_load h j with
+  | JObj kvs =>
+      do p <- collect (map (loadf kvs) fs) ;;
+      if fst p || negb (forallb (fun kv => mem (fst kv) (map sf_key fs)) kvs) then Exn ValidationErr
+      else post_load h (somes (snd p))
+  | _ => Exn ValidationErr
+  end.
+Proof.
+  simpl. destruct (pre_load h j); try reflexivity.
+  assert (E : map (fun f : text * ftype * fopts =>
+                 match f with
+                 | (a, ft', o) => res_map (fun ov => (a, ov)) (wrap_field o (deser ft') (assoc (key_of a o) kvs))
+                 end) fs = map (loadf kvs) fs).
+  { apply map_ext. intros [[a ft'] o]. reflexivity. }
+  rewrite E. reflexivity.
+Qed.
+
+Lemma wrap_present_nonnull o d j : j <> JNull -> wrap_present o d j = d j.
+Proof. destruct j; try reflexivity. intros H. contradiction. Qed.
+
+(* the round trip of one field type: instances of a type the field is compatible with, None excluded *)
+Definition RT (ft : ftype) : Prop :=
+  forall t v, compat_ft ft t = true -> has_ty t v = true ->
+  exists j, ser ft v = Ok j /\ j <> JNull /\ deser ft j = Ok v.
+
+Lemma rt_opt ft o t v :
+  RT ft -> compat_opt (compat_ft ft) o t = true -> has_ty t v = true ->
+  exists j, ser ft v = Ok j /\ wrap_present o (deser ft) j = Ok v.
+Proof.
+  intros Hrt Hc Ht.
+  assert (Hdirect : compat_ft ft t = true -> exists j, ser ft v = Ok j /\ wrap_present o (deser ft) j = Ok v).
+  { intros Hc'. destruct (Hrt t v Hc' Ht) as (j & Hs & Hn & Hd). exists j. split; [assumption|].
+    now rewrite wrap_present_nonnull. }
+  destruct t; try (apply Hdirect; exact Hc).
+  simpl in Hc. apply andb_true_iff in Hc. destruct Hc as [Han Hc].
+  destruct v; try (simpl in Ht; destruct (Hrt t _ Hc Ht) as (j & Hs & Hn & Hd); exists j; split; [assumption|];
+                   now rewrite wrap_present_nonnull).
+  exists JNull. split; [apply ser_none|]. simpl. now rewrite Han.
+Qed.
+
+Lemma has_ty_nonnone ft t v : compat_ft ft t = true -> has_ty t v = true -> v <> VNone.
+Proof.
+  intros Hc Ht E. subst v. destruct t; simpl in Ht; try discriminate.
+  destruct ft; simpl in Hc; try discriminate.
+  destruct h; discriminate.
+Qed.
+
+(* lists *)
+Lemma rt_list_items (f : value -> result json) (g : json -> result value) (l : list value) :
+  Forall (fun v => exists j, f v = Ok j /\ g j = Ok v) l ->
+  exists js, mapM f l = Ok js /\ collect (map g js) = Ok (false, l).
+Proof.
+  induction 1 as [|v l (j & Hf & Hg) _ (js & Hm & Hc)]; simpl.
+  - exists []. split; reflexivity.
+  - exists (j :: js). rewrite Hf. simpl. rewrite Hm. simpl. split; [reflexivity|].
+    rewrite Hg, Hc. reflexivity.
+Qed.
+
+Lemma rt_bool : RT FBool.
+Proof.
+  intros t v Hc Ht. destruct t; try discriminate. destruct v; try discriminate.
+  exists (JBool b). repeat split; [discriminate].
+Qed.
+Lemma rt_str : RT FStr.
+Proof.
+  intros t v Hc Ht. destruct t; try discriminate. destruct v; try discriminate.
+  exists (JStr s). repeat split; [discriminate].
+Qed.
+Lemma rt_uuid : RT FUuid.
+Proof.
+  intros t v Hc Ht. destruct t; try discriminate. destruct v; try discriminate. simpl in Ht.
+  exists (JStr s). repeat split; [discriminate|]. simpl. now rewrite Ht.
+Qed.
+
+Lemma rt_flist i io : RT i -> RT (FList i io).
+Proof.
+  intros Hi t v Hc Ht. destruct t; try discriminate. simpl in Hc.
+  destruct v; try discriminate. simpl in Ht.
+  assert (Hall : Forall (fun x => exists j, ser i x = Ok j /\ wrap_present io (deser i) j = Ok x) l).
+  { apply Forall_forall. intros x Hx. rewrite forallb_forall in Ht. apply (@rt_opt i io t x Hi Hc). now apply Ht. }
+  destruct (rt_list_items _ _ Hall) as (js & Hm & Hcol).
+  exists (JArr js). split; [simpl; now rewrite Hm|]. split; [discriminate|].
+  simpl. unfold collected. rewrite Hcol. reflexivity.
+Qed.
+
+Lemma rt_dict_items (back : value -> value) (vf : ftype) (ko vo : fopts) (kvs : list (text * value)) :
+  Forall (fun kv => exists j, ser vf (snd kv) = Ok j /\ wrap_present vo (deser vf) j = Ok (back (snd kv))) kvs ->
+  exists js,
+    mapM (fun kv : text * value => do jk <- ser FStr (VStr (fst kv)) ;; do jv <- ser vf (snd kv) ;;
+                                   match jk with JStr s => Ok (s, jv) | _ => Exn OtherErr end) kvs = Ok js
+    /\ collect (map (fun kv : text * json => as_key (wrap_present ko (deser FStr) (JStr (fst kv)))) js) = Ok (false, map fst kvs)
+    /\ collect (map (fun kv : text * json => wrap_present vo (deser vf) (snd kv)) js) = Ok (false, map (fun kv => back (snd kv)) kvs).
+Proof.
+  induction 1 as [|[k x] l (j & Hs & Hw) _ (js & Hm & Hk & Hv)].
+  - exists []. repeat split.
+  - exists ((k, j) :: js). simpl in *. rewrite Hs. simpl. rewrite Hm. simpl. split; [reflexivity|].
+    rewrite Hk, Hv, Hw. split; reflexivity.
+Qed.
+
+Lemma combine_fst_g {A B C} (g : A * B -> C) (l : list (A * B)) :
+  combine (map fst l) (map g l) = map (fun kv => (fst kv, g kv)) l.
+Proof. induction l as [|[a b] l IH]; simpl; [reflexivity|]. now rewrite IH. Qed.
+Lemma map_pair_id {A B} (l : list (A * B)) : map (fun kv => (fst kv, snd kv)) l = l.
+Proof. induction l as [|[a b] l IH]; simpl; [reflexivity|]. now rewrite IH. Qed.
+
+Lemma ser_fdict k ko vf vo kvs :
+  ser (FDict k ko vf vo) (VDict kvs) =
+  res_map JObj (mapM (fun kv : text * value => do jk <- ser k (VStr (fst kv)) ;; do jv <- ser vf (snd kv) ;;
+                                               match jk with JStr s => Ok (s, jv) | _ => Exn OtherErr end) kvs).
+Proof. reflexivity. Qed.
+Lemma deser_fdict k ko vf vo kvs :
+  deser (FDict k ko vf vo) (JObj kvs) =
+  (do pk <- collect (map (fun kv : text * json => as_key (wrap_present ko (deser k) (JStr (fst kv)))) kvs) ;;
+   do pv <- collect (map (fun kv : text * json => wrap_present vo (deser vf) (snd kv)) kvs) ;;
+   if fst pk || fst pv then Exn ValidationErr else Ok (VDict (combine (snd pk) (snd pv)))).
+Proof. reflexivity. Qed.
+
+Lemma rt_fdict k ko vf vo : RT vf -> RT (FDict k ko vf vo).
+Proof.
+  intros Hv t v Hc Ht. destruct t; try discriminate. simpl in Hc.
+  destruct t1; try discriminate. apply andb_true_iff in Hc. destruct Hc as [Hk Hc].
+  destruct k; try discriminate.
+  destruct v; try discriminate. simpl in Ht.
+  assert (Hall : Forall (fun kv : text * value => exists j, ser vf (snd kv) = Ok j /\ wrap_present vo (deser vf) j = Ok (snd kv)) kvs).
+  { apply Forall_forall. intros x Hx. rewrite forallb_forall in Ht. apply (@rt_opt vf vo t2 (snd x) Hv Hc). now apply Ht. }
+  destruct (@rt_dict_items (fun x => x) vf ko vo kvs Hall) as (js & Hm & Hck & Hcv).
+  exists (JObj js). split; [rewrite ser_fdict, Hm; reflexivity|]. split; [discriminate|].
+  rewrite deser_fdict, Hck, Hcv. simpl. now rewrite combine_fst_g, map_pair_id.
+Qed.
+
+(* RequirementIndicatorSchema *)
+Lemma assoc_some_In {A} k (l : list (text * A)) x : assoc k l = Some x -> In (k, x) l.
+Proof.
+  induction l as [|[k' y] l IH]; simpl; [discriminate|].
+  destruct (text_eqb k k') eqn:E.
+  - intros H. injection H as ->. apply text_eqb_eq in E. subst. now left.
+  - intros H. right. now apply IH.
+Qed.
+
+Lemma find_alt_of alts e ms x :
+  alts_ok alts = true -> assoc e alts = Some ms -> mem x ms = true -> find_alt alts x = Some e /\ ascii_upper x = x.
+Proof.
+  unfold alts_ok. intros Hok Ha Hm. apply andb_true_iff in Hok. destruct Hok as [_ Hok].
+  rewrite forallb_forall in Hok. specialize (Hok _ (assoc_some_In _ _ Ha)). simpl in Hok.
+  apply andb_true_iff in Hok. destruct Hok as [Hup Hf].
+  apply mem_In in Hm. split.
+  - rewrite forallb_forall in Hf. specialize (Hf _ Hm).
+    apply (option_eqb_eq text_eqb text_eqb_eq) in Hf. exact Hf.
+  - unfold upper_stable in Hup. rewrite forallb_forall in Hup. apply text_eqb_eq. now apply Hup.
+Qed.
+
+Lemma rt_reqind n alts fs : RT (FNested n (HReqInd alts) fs).
+Proof.
+  intros t v Hc Ht. simpl in Hc. destruct t; try discriminate.
+  destruct fs as [|[[a ft'] o] rest]; try discriminate. destruct ft'; try discriminate. destruct rest; try discriminate.
+  repeat (apply andb_true_iff in Hc; destruct Hc as [Hc ?]).
+  apply text_eqb_eq in Hc. subst a. rename H1 into Hkey, H0 into Hsub, H into Hok. apply text_eqb_eq in Hkey.
+  destruct v; try discriminate. simpl in Ht.
+  destruct (assoc ename alts0) as [ms|] eqn:Ea; [|discriminate].
+  unfold alts_sub in Hsub. rewrite forallb_forall in Hsub. specialize (Hsub _ (assoc_some_In _ _ Ea)). simpl in Hsub.
+  destruct (assoc ename alts) as [ms'|] eqn:Ea'; [|discriminate].
+  rewrite forallb_forall in Hsub. apply mem_In in Ht. specialize (Hsub _ Ht).
+  destruct (@find_alt_of alts ename ms' val Hok Ea' Hsub) as [Hfind Hup].
+  exists (JStr val). split; [|split; [discriminate|]].
+  - rewrite ser_nested by discriminate. unfold dumpf, sf_key, sf_attr, sf_opts, sf_ft. simpl map. simpl fst. simpl snd.
+    rewrite Hkey. simpl. now rewrite Hup.
+  - rewrite deser_nested. unfold loadf, sf_key, sf_attr, sf_opts, sf_ft. simpl map. simpl fst. simpl snd.
+    rewrite Hkey. simpl. rewrite Hfind. reflexivity.
+Qed.
+
+(* ---------------------------------------------------------------- attrs objects *)
+Definition aligned (cf : cfield) (p : text * value) : Prop :=
+  cf_name cf = fst p /\ has_ty (cf_ty cf) (snd p) = true /\ is_ok (validate (cf_vld cf) (snd p)) = true.
+
+Lemma has_ty_obj c cfs v :
+  has_ty (TObj c cfs) v = true -> exists vfs, v = VObj c vfs /\ Forall2 aligned cfs vfs.
+Proof.
+  simpl. destruct v; try discriminate. intros H. apply andb_true_iff in H. destruct H as [Hc H].
+  apply text_eqb_eq in Hc. subst. exists fs. split; [reflexivity|].
+  revert fs H. induction cfs as [|[[[n t] d] x] cfs IH]; intros [|[n' y] fs] H; try discriminate.
+  - constructor.
+  - repeat (apply andb_true_iff in H; destruct H as [H ?]). constructor; [|apply IH; assumption].
+    apply text_eqb_eq in H. subst. repeat split; assumption.
+Qed.
+
+Lemma aligned_names cfs vfs : Forall2 aligned cfs vfs -> map fst vfs = map cf_name cfs.
+Proof. induction 1 as [|cf p cfs vfs (Hn & _) _ IH]; simpl; [reflexivity|]. now rewrite Hn, IH. Qed.
+
+Lemma aligned_find cfs vfs a cf :
+  Forall2 aligned cfs vfs -> find_cf a cfs = Some cf ->
+  exists x, assoc a vfs = Some x /\ has_ty (cf_ty cf) x = true /\ cf_name cf = a.
+Proof.
+  unfold find_cf. induction 1 as [|cf0 [n x] cfs vfs (Hn & Ht & _) _ IH]; simpl; [discriminate|].
+  simpl in Hn. subst n. rewrite (text_eqb_sym (cf_name cf0) a).
+  destruct (text_eqb a (cf_name cf0)) eqn:E.
+  - intros H. injection H as <-. apply text_eqb_eq in E. exists x. repeat split; [assumption|now symmetry].
+  - exact IH.
+Qed.
+
+Lemma mapM_map_oks {A B C} (F : B -> result C) (g : A -> B) (g' : A -> C) (l : list A) :
+  Forall (fun x => F (g x) = Ok (g' x)) l -> mapM F (map g l) = Ok (map g' l).
+Proof. induction 1 as [|x l Hx _ IH]; simpl; [reflexivity|]. now rewrite Hx, IH. Qed.
+
+Lemma find_cf_name a cfs cf : find_cf a cfs = Some cf -> In cf cfs /\ cf_name cf = a.
+Proof.
+  unfold find_cf. intros H. apply find_some in H. destruct H as [Hin E]. apply text_eqb_eq in E. now split.
+Qed.
+
+Lemma validators_ok cfs vfs :
+  Forall2 aligned cfs vfs ->
+  first_exn (map (fun p : cfield * (text * value) => validate (cf_vld (fst p)) (snd (snd p))) (combine cfs vfs)) = Ok tt.
+Proof.
+  induction 1 as [|cf p cfs vfs (_ & _ & Hv) _ IH]; simpl; [reflexivity|].
+  destruct (validate (cf_vld cf) (snd p)) as [[]|e]; [exact IH|discriminate].
+Qed.
+
+Lemma args_of_pointwise (data : list (text * value)) cfs vfs :
+  Forall2 (fun (cf : cfield) (p : text * value) => cf_name cf = fst p /\ assoc (cf_name cf) data = Some (snd p)) cfs vfs ->
+  mapM (fun cf : cfield =>
+          match assoc (cf_name cf) data with
+          | Some x => Ok (cf_name cf, x)
+          | None => match cf_dflt cf with DNone => Ok (cf_name cf, VNone) | DNoDefault => Exn TypeErr end
+          end) cfs = Ok vfs.
+Proof.
+  induction 1 as [|cf [k x] cfs' vfs' (Hn & Ha) _ IH]; simpl; [reflexivity|].
+  simpl in Hn, Ha. rewrite Ha, IH. simpl. now rewrite Hn.
+Qed.
+
+(* one field of a constructing schema: dump, load and the post_load fix-up give the attribute value back *)
+Definition field_rt (h : hook) (f : sfield) (x : value) : Prop :=
+  exists j x', ser (sf_ft f) x = Ok j /\ wrap_present (sf_opts f) (deser (sf_ft f)) j = Ok x'
+               /\ fixup h (sf_attr f) x' = Ok x.
+
+Section Construct.
+  Variables (n : text) (h : hook) (c : cls) (fs : list sfield).
+  Hypothesis Hpd : forall kvs, post_dump h kvs = Ok (JObj kvs).
+  Hypothesis Hpl : forall j, pre_load h j = j.
+  Hypothesis Hpo : forall data, post_load h data = (do data' <- fixup_data h data ;; construct c data').
+  Hypothesis Hcover : fields_cover (cfields c) fs = true.
+  Hypothesis Hfind : forall f, In f fs -> exists cf, find_cf (sf_attr f) (cfields c) = Some cf.
+  Hypothesis Hrt : forall f cf x, In f fs -> find_cf (sf_attr f) (cfields c) = Some cf -> has_ty (cf_ty cf) x = true -> field_rt h f x.
+
+  Lemma rt_construct_inner v :
+    has_ty (ty_of_cls c) v = true ->
+    exists j, ser (FNested n h fs) v = Ok j /\ j <> JNull /\ deser (FNested n h fs) j = Ok v.
+  Proof.
+    intros Ht. apply has_ty_obj in Ht. destruct Ht as (vfs & -> & Hal).
+    assert (Hcov := Hcover). unfold fields_cover in Hcov.
+    apply andb_true_iff in Hcov. destruct Hcov as [Hcov Hall].
+    apply andb_true_iff in Hcov. destruct Hcov as [Hcov Hndc].
+    apply andb_true_iff in Hcov. destruct Hcov as [Hndk Hnda].
+    apply nodupb_NoDup in Hndk, Hnda, Hndc.
+    pose (xf := fun f : sfield => match assoc (sf_attr f) vfs with Some x => x | None => VNone end).
+    pose (jf := fun f : sfield => match ser (sf_ft f) (xf f) with Ok j => j | Exn _ => JNull end).
+    pose (yf := fun f : sfield => match wrap_present (sf_opts f) (deser (sf_ft f)) (jf f) with Ok y => y | Exn _ => VNone end).
+    assert (Hf : forall f, In f fs ->
+               assoc (sf_attr f) vfs = Some (xf f) /\ ser (sf_ft f) (xf f) = Ok (jf f)
+               /\ wrap_present (sf_opts f) (deser (sf_ft f)) (jf f) = Ok (yf f) /\ fixup h (sf_attr f) (yf f) = Ok (xf f)).
+    { intros f Hin. destruct (Hfind f Hin) as (cf & Hcf).
+      destruct (aligned_find _ Hal Hcf) as (x & Hx & Htx & _).
+      destruct (Hrt f x Hin Hcf Htx) as (j & y & Hs & Hw & Hfx).
+      assert (Ex : xf f = x) by (unfold xf; now rewrite Hx).
+      assert (Ej : jf f = j) by (unfold jf; now rewrite Ex, Hs).
+      assert (Ey : yf f = y) by (unfold yf; now rewrite Ej, Hw).
+      rewrite Ex, Ej, Ey. repeat split; assumption. }
+    set (obj := map (fun f => (sf_key f, jf f)) fs).
+    exists (JObj obj). split; [|split; [discriminate|]].
+    - rewrite ser_nested by discriminate.
+      rewrite (@map_ext_Forall _ _ (dumpf (VObj (cname_of c) vfs)) (fun f => Ok (sf_key f, Some (jf f)))).
+      + rewrite sequence_oks. simpl. rewrite somes_map. apply Hpd.
+      + apply Forall_forall. intros f Hin. destruct (Hf f Hin) as (Ha & Hs & _).
+        unfold dumpf. simpl get_attr. rewrite Ha. simpl. now rewrite Hs.
+    - rewrite deser_nested, Hpl.
+      rewrite (@map_ext_Forall _ _ (loadf obj) (fun f => Ok (sf_attr f, Some (yf f)))).
+      + rewrite collect_oks. cbn [bind fst snd]. rewrite somes_map.
+        assert (Hknown : forallb (fun kv : text * json => mem (fst kv) (map sf_key fs)) obj = true).
+        { apply forallb_forall. intros kv Hkv. unfold obj in Hkv. apply in_map_iff in Hkv. destruct Hkv as (f & <- & Hin).
+          simpl. apply mem_In. now apply in_map. }
+        rewrite Hknown. simpl. rewrite Hpo.
+        unfold fixup_data.
+        rewrite (@mapM_map_oks _ _ _ (fun kv : text * value => res_map (fun x => (fst kv, x)) (fixup h (fst kv) (snd kv)))
+                   (fun f => (sf_attr f, yf f)) (fun f => (sf_attr f, xf f))).
+        2:{ apply Forall_forall. intros f Hin. destruct (Hf f Hin) as (_ & _ & _ & Hfx). simpl. now rewrite Hfx. }
+        simpl. unfold construct.
+        set (data := map (fun f => (sf_attr f, xf f)) fs).
+        assert (Hkn : forallb (fun kv : text * value => mem (fst kv) (map cf_name (cfields c))) data = true).
+        { apply forallb_forall. intros kv Hkv. unfold data in Hkv. apply in_map_iff in Hkv. destruct Hkv as (f & <- & Hin).
+          simpl. apply mem_In. destruct (Hfind f Hin) as (cf & Hcf). apply find_cf_name in Hcf. destruct Hcf as [Hi <-].
+          now apply in_map. }
+        rewrite Hkn. simpl.
+        assert (Hargs : mapM (fun cf : cfield =>
+                                match assoc (cf_name cf) data with
+                                | Some x => Ok (cf_name cf, x)
+                                | None => match cf_dflt cf with DNone => Ok (cf_name cf, VNone) | DNoDefault => Exn TypeErr end
+                                end) (cfields c) = Ok vfs).
+        { assert (Hnv : NoDup (map fst vfs)) by (rewrite (aligned_names Hal); exact Hndc).
+          assert (Hpoint : Forall2 (fun (cf : cfield) (p : text * value) => cf_name cf = fst p /\ assoc (cf_name cf) data = Some (snd p)) (cfields c) vfs).
+          { assert (Hsub : forall cf, In cf (cfields c) -> mem (cf_name cf) (map sf_attr fs) = true) by (now apply forallb_forall).
+            assert (Hinv : forall p, In p vfs -> assoc (fst p) vfs = Some (snd p)) by (intros p Hp; now apply assoc_In).
+            assert (Hgen : forall cfs' vfs', Forall2 aligned cfs' vfs' ->
+                      (forall cf, In cf cfs' -> mem (cf_name cf) (map sf_attr fs) = true) ->
+                      (forall p, In p vfs' -> assoc (fst p) vfs = Some (snd p)) ->
+                      Forall2 (fun (cf : cfield) (p : text * value) => cf_name cf = fst p /\ assoc (cf_name cf) data = Some (snd p)) cfs' vfs').
+            { intros cfs' vfs' Hal'. induction Hal' as [|cf p cfs' vfs' (Hn & _) _ IH]; intros Hsub' Hinv'; constructor.
+              - split; [assumption|].
+                assert (Hm := Hsub' cf (or_introl eq_refl)). apply mem_In in Hm. apply in_map_iff in Hm.
+                destruct Hm as (f & Hfa & Hin). rewrite <- Hfa. unfold data.
+                rewrite (assoc_map_key sf_attr xf fs f Hnda Hin). f_equal.
+                destruct (Hf f Hin) as (Ha & _). rewrite Hfa, Hn in Ha.
+                rewrite (Hinv' p (or_introl eq_refl)) in Ha. now injection Ha.
+              - apply IH; [intros cf' Hc'; apply Hsub'; now right|intros p' Hp'; apply Hinv'; now right]. }
+            exact (Hgen _ _ Hal Hsub Hinv). }
+          exact (@args_of_pointwise data (cfields c) vfs Hpoint). }
+        rewrite Hargs. simpl. rewrite (validators_ok Hal). reflexivity.
+      + apply Forall_forall. intros f Hin. destruct (Hf f Hin) as (_ & _ & Hw & _).
+        unfold loadf, obj. rewrite (assoc_map_key sf_key jf fs f Hndk Hin). simpl. now rewrite Hw.
+  Qed.
+End Construct.
+
+(* ---------------------------------------------------------------- the three kinds of schema *)
+Lemma field_rt_plain h f t x :
+  (forall y, fixup h (sf_attr f) y = Ok y) -> RT (sf_ft f) ->
+  compat_opt (compat_ft (sf_ft f)) (sf_opts f) t = true -> has_ty t x = true -> field_rt h f x.
+Proof.
+  intros Hfx Hrt Hc Ht. destruct (@rt_opt (sf_ft f) (sf_opts f) t x Hrt Hc Ht) as (j & Hs & Hw).
+  exists j, x. repeat split; [assumption|assumption|apply Hfx].
+Qed.
+
+Opaque ty_eqb.
+Lemma rt_construct n c fs : Forall (fun f : sfield => RT (sf_ft f)) fs -> RT (FNested n (HConstruct c) fs).
+Proof.
+  intros IH t v Hc Ht. simpl in Hc.
+  apply andb_true_iff in Hc. destruct Hc as [Hc Hfs]. apply andb_true_iff in Hc. destruct Hc as [Hty Hcov].
+  apply ty_eqb_eq in Hty. subst t. rewrite forallb_forall in Hfs. rewrite Forall_forall in IH.
+  apply (@rt_construct_inner n (HConstruct c) c fs); try reflexivity; try assumption.
+  - intros [[a ft'] o] Hin. specialize (Hfs _ Hin). simpl in Hfs. unfold sf_attr. simpl.
+    destruct (find_cf a (cfields c)) as [cf|]; [now exists cf|discriminate].
+  - intros [[a ft'] o] cf x Hin Hcf Htx. specialize (Hfs _ Hin). simpl in Hfs. unfold sf_attr in Hcf. simpl in Hcf.
+    rewrite Hcf in Hfs. apply (@field_rt_plain (HConstruct c) (a, ft', o) (cf_ty cf) x); try assumption; [reflexivity|].
+    exact (IH _ Hin).
+Qed.
+
+Definition enum_back (v : value) : value := match v with VEnum _ m => VStr m | _ => v end.
+
+Lemma rt_cer_field fld en ms c ko vo o kvs :
+  upper_stable ms = true ->
+  forallb (fun kv : text * value => has_ty (TEnum [(en, ms)]) (snd kv)) kvs = true ->
+  field_rt (HCerConstruct fld en ms c) (fld, FDict FStr ko FStr vo, o) (VDict kvs).
+Proof.
+  intros Hup Ht. rewrite forallb_forall in Ht.
+  assert (Hshape : forall kv, In kv kvs -> exists m, snd kv = VEnum en m /\ In m ms).
+  { intros kv Hin. specialize (Ht _ Hin). destruct (snd kv); simpl in Ht; try discriminate.
+    destruct (text_eqb ename en) eqn:E; [|discriminate]. apply text_eqb_eq in E. subst. apply mem_In in Ht. now exists val. }
+  assert (Hall : Forall (fun kv : text * value => exists j, ser FStr (snd kv) = Ok j /\ wrap_present vo (deser FStr) j = Ok (enum_back (snd kv))) kvs).
+  { apply Forall_forall. intros kv Hin. destruct (Hshape _ Hin) as (m & -> & _). exists (JStr m). split; reflexivity. }
+  destruct (@rt_dict_items enum_back FStr ko vo kvs Hall) as (js & Hm & Hck & Hcv).
+  exists (JObj js), (VDict (map (fun kv => (fst kv, enum_back (snd kv))) kvs)).
+  unfold sf_ft, sf_opts, sf_attr. simpl fst. simpl snd. split; [|split].
+  - rewrite ser_fdict, Hm. reflexivity.
+  - rewrite wrap_present_nonnull by discriminate. rewrite deser_fdict, Hck, Hcv. simpl. now rewrite combine_fst_g.
+  - simpl. rewrite text_eqb_refl. do 2 f_equal. rewrite map_map. simpl.
+    rewrite <- (map_pair_id kvs) at 2. apply map_ext_in. intros kv Hin. destruct (Hshape _ Hin) as (m & -> & Hm').
+    simpl. unfold upper_stable in Hup. rewrite forallb_forall in Hup. specialize (Hup _ Hm'). apply text_eqb_eq in Hup.
+    rewrite Hup. apply mem_In in Hm'. now rewrite Hm'.
+Qed.
+
+Lemma rt_cer n fld en ms c fs :
+  Forall (fun f : sfield => RT (sf_ft f)) fs -> RT (FNested n (HCerConstruct fld en ms c) fs).
+Proof.
+  intros IH t v Hc Ht. simpl in Hc.
+  apply andb_true_iff in Hc. destruct Hc as [Hc Hfs]. apply andb_true_iff in Hc. destruct Hc as [Hc Hup].
+  apply andb_true_iff in Hc. destruct Hc as [Hty Hcov].
+  apply ty_eqb_eq in Hty. subst t. rewrite forallb_forall in Hfs. rewrite Forall_forall in IH.
+  apply (@rt_construct_inner n (HCerConstruct fld en ms c) c fs); try reflexivity; try assumption.
+  - intros [[a ft'] o] Hin. specialize (Hfs _ Hin). simpl in Hfs. unfold sf_attr. simpl.
+    destruct (find_cf a (cfields c)) as [cf|]; [now exists cf|discriminate].
+  - intros [[a ft'] o] cf x Hin Hcf Htx. specialize (Hfs _ Hin). simpl in Hfs. unfold sf_attr in Hcf. simpl in Hcf.
+    rewrite Hcf in Hfs. destruct (text_eqb a fld) eqn:Ea.
+    + apply text_eqb_eq in Ea. subst a.
+      destruct ft'; try discriminate. destruct ft'1; try discriminate. destruct ft'2; try discriminate.
+      destruct (cf_ty cf); try discriminate. destruct t1; try discriminate. destruct t2; try discriminate.
+      destruct alts as [|[e ms'] [|? ?]]; try discriminate.
+      apply andb_true_iff in Hfs. destruct Hfs as [He Hms]. apply text_eqb_eq in He.
+      apply (list_eqb_eq text_eqb text_eqb_eq) in Hms. subst.
+      destruct x; try discriminate. simpl in Htx. apply rt_cer_field; assumption.
+    + apply (@field_rt_plain (HCerConstruct fld en ms c) (a, ft', o) (cf_ty cf) x); try assumption.
+      * intros y. unfold sf_attr. simpl. now rewrite Ea.
+      * exact (IH _ Hin).
+Qed.
+
+Transparent ty_eqb.
+
+Theorem rt_all : forall ft, RT ft.
+Proof.
+  induction ft as [| | |i io IH|k ko v vo _ IHv|n h fs IH] using ftype_ind'.
+  - exact rt_bool.
+  - exact rt_str.
+  - exact rt_uuid.
+  - now apply rt_flist.
+  - now apply rt_fdict.
+  - destruct h; [now apply rt_construct|now apply rt_cer|apply rt_reqind].
+Qed.
+
+(* C19_generic *)
+Theorem roundtrip_generic (c : cls) (s : schema) (v : value) :
+  compatible c s = true -> inhabits c v -> exists j, dump s v = Ok j /\ load s j = Ok v.
+Proof.
+  unfold compatible, inhabits, dump, load. intros Hc Ht.
+  destruct (@rt_all s _ _ Hc Ht) as (j & Hs & _ & Hd). now exists j.
+Qed.
+
+Corollary load_dump_generic (c : cls) (s : schema) (v : value) :
+  compatible c s = true -> inhabits c v -> (do j <- dump s v ;; load s j) = Ok v.
+Proof. intros Hc Hi. destruct (@roundtrip_generic c s v Hc Hi) as (j & Hd & Hl). now rewrite Hd. Qed.
+
+(* ================================================================ Part 3: the generated descriptors *)
+Lemma compatible_EvaluatedFormatConstraint : compatible cls_EvaluatedFormatConstraint sch_EvaluatedFormatConstraintSchema = true.
+Proof. vm_compute. reflexivity. Qed.
+Lemma compatible_ContentEvaluationResult : compatible cls_ContentEvaluationResult sch_ContentEvaluationResultSchema = true.
+Proof. vm_compute. reflexivity. Qed.
+Lemma compatible_CategorizedKeyExtract : compatible cls_CategorizedKeyExtract sch_CategorizedKeyExtractSchema = true.
+Proof. vm_compute. reflexivity. Qed.
+Lemma compatible_RequirementConstraintEvaluationResult :
+  compatible cls_RequirementConstraintEvaluationResult sch_RequirementConstraintEvaluationResultSchema = true.
+Proof. vm_compute. reflexivity. Qed.
+Lemma compatible_FormatConstraintEvaluationResult :
+  compatible cls_FormatConstraintEvaluationResult sch_FormatConstraintEvaluationResultSchema = true.
+Proof. vm_compute. reflexivity. Qed.
+Lemma compatible_AhbExpressionEvaluationResult :
+  compatible cls_AhbExpressionEvaluationResult sch_AhbExpressionEvaluationResultSchema = true.
+Proof. vm_compute. reflexivity. Qed.
+
+(* every class of the property, at once (the table is generated) *)
+Lemma compatible_table : forallb (fun e => compatible (fst (snd e)) (snd (snd e))) c19_table = true.
+Proof. vm_compute. reflexivity. Qed.
+
+Theorem roundtrip_table name c s v :
+  In (name, (c, s)) c19_table -> inhabits c v -> exists j, dump s v = Ok j /\ load s j = Ok v.
+Proof.
+  intros Hin Hv. apply roundtrip_generic with (c := c); [|assumption].
+  assert (H := compatible_table). rewrite forallb_forall in H. exact (H _ Hin).
+Qed.
+
+(* a non-trivial instance: an AHB result whose requirement outcome is undetermined (both Optional[bool] are None) *)
+Definition t_MUSS : text := [77;85;83;83]%N.
+Definition t_ModalMark : text := [77;111;100;97;108;77;97;114;107]%N.
+Definition rcer_undetermined : value :=
+  VObj (cname_of cls_RequirementConstraintEvaluationResult)
+       (map (fun cf : cfield => (cf_name cf, VNone)) (cfields cls_RequirementConstraintEvaluationResult)).
+Definition aeer_undetermined : value :=
+  match cfields cls_AhbExpressionEvaluationResult, cfields cls_FormatConstraintEvaluationResult with
+  | [a; b; c], [d; e] =>
+      VObj (cname_of cls_AhbExpressionEvaluationResult)
+           [(cf_name a, VEnum t_ModalMark t_MUSS); (cf_name b, rcer_undetermined);
+            (cf_name c, VObj (cname_of cls_FormatConstraintEvaluationResult) [(cf_name d, VBool true); (cf_name e, VNone)])]
+  | _, _ => VNone
+  end.
+Lemma aeer_undetermined_inhabits : inhabits cls_AhbExpressionEvaluationResult aeer_undetermined.
+Proof. vm_compute. reflexivity. Qed.
+Lemma rcer_undetermined_inhabits : inhabits cls_RequirementConstraintEvaluationResult rcer_undetermined.
+Proof. vm_compute. reflexivity. Qed.
+Lemma aeer_undetermined_roundtrip :
+  (do j <- dump sch_AhbExpressionEvaluationResultSchema aeer_undetermined ;; load sch_AhbExpressionEvaluationResultSchema j) = Ok aeer_undetermined.
+Proof. exact (@load_dump_generic _ _ _ compatible_AhbExpressionEvaluationResult aeer_undetermined_inhabits). Qed.
+
+(* the defect this property found in the original tree, kept as a refutation of the schema WITHOUT allow_none:
+   dropping the allow_none argument of the Boolean fields makes the class incompatible, and the instance above is the
+   witness (load answers ValidationError: "Field may not be null.") *)
+Definition drop_allow_none_of_booleans (s : schema) : schema :=
+  match s with
+  | FNested n h fs =>
+      FNested n h (map (fun f : sfield =>
+                          match sf_ft f with
+                          | FBool => (sf_attr f, FBool, {| allow_none_arg := None; required := required (sf_opts f);
+                                                            load_default := load_default (sf_opts f);
+                                                            dump_default := dump_default (sf_opts f); data_key := data_key (sf_opts f) |})
+                          | _ => f
+                          end) fs)
+  | _ => s
+  end.
+Lemma refuted_when_allow_none_missing :
+  let s := drop_allow_none_of_booleans sch_RequirementConstraintEvaluationResultSchema in
+  compatible cls_RequirementConstraintEvaluationResult s = false
+  /\ missing_allow_none cls_RequirementConstraintEvaluationResult s <> []
+  /\ (do j <- dump s rcer_undetermined ;; load s j) = Exn ValidationErr.
+Proof. vm_compute. repeat split. discriminate. Qed.
+
+(* ================================================================ Part 4: Lark trees through TreeSchema *)
+Section LtreeInd.
+  Variable P : ltree -> Prop.
+  Hypothesis Htok : forall ty v, P (LTok ty v).
+  Hypothesis Htree : forall d cs, Forall P cs -> P (LTree d cs).
+  Fixpoint ltree_ind' (t : ltree) : P t :=
+    match t with
+    | LTok ty v => Htok ty v
+    | LTree d cs =>
+        Htree d ((fix go (l : list ltree) : Forall P l :=
+                    match l with [] => Forall_nil _ | x :: r => Forall_cons x (ltree_ind' x) (go r) end) cs)
+    end.
+End LtreeInd.
+
+Definition dump_child (c : ltree) : json :=
+  match c with
+  | LTok ty v => JObj [(t_token, dump_token ty v); (t_tree, JNull)]
+  | LTree _ _ => JObj [(t_token, JNull); (t_tree, dump_tree c)]
+  end.
+Definition child_view (x : json) : result lval :=
+  match x with JNull => Exn ValidationErr | _ => as_tot (ld x) end.
+
+Lemma dump_tree_node d cs : dump_tree (LTree d cs) = JObj [(t_type, JStr d); (t_children, JArr (map dump_child cs))].
+Proof. reflexivity. Qed.
+
+Lemma as_tree_node d l :
+  as_tree (ld (JObj [(t_type, JStr d); (t_children, JArr l)])) =
+  match collected (map child_view l) with Ok c => Ok (PTree d c) | Exn e => Exn e end.
+Proof.
+  change (as_tree (ld (JObj [(t_type, JStr d); (t_children, JArr l)])))
+    with (both (Ok (Some d)) (res_map Some (collected (map child_view l))) false
+               (fun od oc => match od, oc with Some d', Some c => Ok (PTree d' c) | _, _ => Exn TypeErr end)).
+  destruct (collected (map child_view l)) as [c|e]; reflexivity.
+Qed.
+
+Lemma as_tot_tree_child kvs :
+  as_tot (ld (JObj [(t_token, JNull); (t_tree, JObj kvs)])) =
+  match as_tree (ld (JObj kvs)) with Ok t => Ok t | Exn e => Exn e end.
+Proof.
+  change (as_tot (ld (JObj [(t_token, JNull); (t_tree, JObj kvs)])))
+    with (both (Ok (Some (@None lval))) (res_map (fun t => Some (Some t)) (as_tree (ld (JObj kvs)))) false
+               (fun otok otree =>
+                  match otree with
+                  | Some (Some t) => Ok t
+                  | _ => match otok with
+                         | Some (Some t) => if py_truthy t then Ok t else Ok (PRaw (opt_entry t_token otok ++ opt_entry t_tree otree))
+                         | _ => Ok (PRaw (opt_entry t_token otok ++ opt_entry t_tree otree))
+                         end
+                  end)).
+  destruct (as_tree (ld (JObj kvs))) as [t|e]; reflexivity.
+Qed.
+
+Lemma as_tot_token_child ty v : v <> [] -> as_tot (ld (JObj [(t_token, dump_token ty v); (t_tree, JNull)])) = Ok (PTok ty (Some v)).
+Proof. destruct v; [contradiction|reflexivity]. Qed.
+
+Lemma tree_roundtrip_both t :
+  tok_ok t = true ->
+  child_view (dump_child t) = Ok (embed t)
+  /\ (forall d cs, t = LTree d cs -> as_tree (ld (dump_tree t)) = Ok (embed t)).
+Proof.
+  induction t as [ty v|d cs IH] using ltree_ind'; intros Hok.
+  - split; [|intros d cs E; discriminate]. simpl in Hok. unfold dump_child, child_view.
+    apply as_tot_token_child. destruct v; [discriminate|discriminate].
+  - simpl in Hok.
+    assert (Hnode : as_tree (ld (dump_tree (LTree d cs))) = Ok (embed (LTree d cs))).
+    { rewrite dump_tree_node, as_tree_node.
+      assert (Hc : collected (map child_view (map dump_child cs)) = Ok (map embed cs)).
+      { unfold collected.
+        assert (Hcol : collect (map child_view (map dump_child cs)) = Ok (false, map embed cs)).
+        { clear d. induction IH as [|c cs Hc _ IHcs]; simpl; [reflexivity|].
+          simpl in Hok. apply andb_true_iff in Hok. destruct Hok as [Hc1 Hc2].
+          destruct (Hc Hc1) as [Hv _]. rewrite Hv, (IHcs Hc2). reflexivity. }
+        rewrite Hcol. reflexivity. }
+      rewrite Hc. reflexivity. }
+    split; [|intros d' cs' _; exact Hnode].
+    unfold dump_child, child_view. rewrite dump_tree_node, as_tot_tree_child, <- dump_tree_node, Hnode. reflexivity.
+Qed.
+
+(* C19_tree *)
+Theorem tree_roundtrip t : tree_ok t = true -> load_tree (dump_tree t) = Ok (embed t).
+Proof.
+  destruct t as [ty v|d cs]; [discriminate|]. unfold tree_ok, load_tree. intros Hok.
+  exact (proj2 (tree_roundtrip_both (LTree d cs) Hok) d cs eq_refl).
+Qed.
+
+(* evaluating (or doing anything else with) the round-tripped tree gives the result of the original tree *)
+Corollary tree_roundtrip_same_result {A} (ev : lval -> A) t :
+  tree_ok t = true -> res_map ev (load_tree (dump_tree t)) = Ok (ev (embed t)).
+Proof. intros H. now rewrite tree_roundtrip. Qed.
+
+(* the hypothesis is needed: a token with an empty value comes back as the raw data dictionary *)
+Lemma tree_roundtrip_needs_nonempty_tokens :
+  let t := LTree [120]%N [LTok [65]%N []] in
+  load_tree (dump_tree t) = Ok (PTree [120]%N [PRaw [(t_token, Some (PTok [65]%N (Some []))); (t_tree, None)]])
+  /\ load_tree (dump_tree t) <> Ok (embed t).
+Proof. split; [reflexivity|discriminate]. Qed.
+
+Example tree_ok_example :
+  tree_ok (LTree [97]%N [LTree [99]%N [LTok [75]%N [49]%N]; LTree [98]%N [LTree [99]%N [LTok [75]%N [50]%N]; LTree [99]%N [LTok [75]%N [57;48;49]%N]]]) = true.
+Proof. reflexivity. Qed.
